@@ -72,6 +72,10 @@ class FunctionNode(ConfigDict):
             if other.ayns.delete:
                 self.clear()
             self._func = other._func
+            # the target is now the one written by "other": this node is at most as safe as "other", also in the places which
+            # refer to it (yaml alias) should "other" take its place in the tree below
+            if not other.ayns.safe:
+                self._safe = False
 
         return super().ayns.on_merge_impl(prefix, other)
 
